@@ -44,6 +44,9 @@ if TYPE_CHECKING:
 # arrives after acquire() has returned and before the ``try`` block is
 # entered would leave the lock held for good.
 lock = RLock()
+# (kept for code that imports them)
+acquire_lock = lock.acquire
+release_lock = lock.release
 
 log = logging.getLogger('chameleon.loader')
 
